@@ -53,6 +53,9 @@ def run(tier):
             # ---- (a) C&C XML over the English lexicon
             rf.set_lang('en')
             b = trees.make_batch(rng, 'en', awkward=0.4, sparse=it % 3 == 2)
+            if it % 8 == 5:
+                # one file in which the same pair of children occurs under different rules / parent categories
+                b = trees.twin_batch(rng, 'en') or b
             base = {'lang': 'en', 'words': [[t['tok']['word'] for t in trees.leaves_of(s[0])] for s in b]}
             real = trees.real_batch(b, rng)
             rf.render_events(PROP, 'xml', 'en', b, real, add, base)
